@@ -835,19 +835,35 @@ fn c08(tier: Tier, seed: u64) -> i32 {
         AdaptScenario { prop: "C08".into(), cfg }
     });
     let n2 = ctx.n(200, 20_000);
-    ctx.run_batch("lowrank_exact", "low-rank presets (NUTS and MCLMC) with eigval_cutoff just above 1 (every direction is kept: the covariance 'fits the rank') on correlated Gaussians (dimension 2..10, eigenvalues 0.05..20 in a random orthonormal basis, seeded mean and start), num_tune 150..400: once warmup is over, the whitened gradient must equal minus the whitened position (fisher_distance = |y + grad_y|^2 <= 1e-8 (1 + |y|^2)) on every draw", n2, |rs, i| {
+    ctx.run_batch("lowrank_exact", "low-rank presets (NUTS and MCLMC): (a) eigval_cutoff just above 1 (every direction is kept: the covariance 'fits the rank') on correlated Gaussians, (b) default cut-off on uncorrelated Gaussians with scales 1e-3..1e3 (rank 0 fits); (dimension 2..10, eigenvalues 0.05..20 in a random orthonormal basis, mean up to 1e8 standard deviations away from the origin, seeded start), num_tune 150..400: once warmup is over, the whitened gradient must equal minus the whitened position (fisher_distance = |y + grad_y|^2 <= 1e-8 (1 + |y|^2)) on every draw", n2, |rs, i| {
         let mut r = Prng::sub(rs, "lowrank_exact");
         let d = r.usize_in(2, 10);
         let eig: Vec<f64> = (0..d).map(|_| r.log_uniform(0.05, 20.0)).collect();
-        let mu: Vec<f64> = (0..d).map(|_| r.uniform(-3.0, 3.0)).collect();
-        let (target, cov) = crate::density::dense_normal(&mut r, mu.clone(), &eig);
+        // the mean is of the order of the spread, or far away from the origin relative to it (up to 1e8 sd)
+        let off = if r.chance(0.5) { 10f64.powf(r.uniform(0.0, 8.0)) } else { 1.0 };
+        let mu: Vec<f64> = (0..d).map(|_| off * r.uniform(-3.0, 3.0)).collect();
+        // correlated Gaussian with every direction kept, or an uncorrelated one with the DEFAULT cut-off (after
+        // the diagonal rescaling its covariance is the identity: nothing to keep, whitening exact all the same)
+        let diag_case = i % 2 == 1;
+        let (target, cov) = if diag_case {
+            let sigma: Vec<f64> = (0..d).map(|_| r.log_uniform(1e-3, 1e3)).collect();
+            let mu: Vec<f64> = (0..d).map(|k| mu[k] * sigma[k]).collect();
+            let mut cov = vec![0.0; d * d];
+            for k in 0..d {
+                cov[k * d + k] = sigma[k] * sigma[k];
+            }
+            (crate::density::Target::DiagNormal { mu, sigma }, cov)
+        } else {
+            crate::density::dense_normal(&mut r, mu.clone(), &eig)
+        };
+        let mu: Vec<f64> = match &target { crate::density::Target::DiagNormal { mu, .. } => mu.clone(), _ => mu };
         let nt = r.range(150, 400);
         let kind = if i % 4 == 3 { crate::swarm::PresetKind::LowRankMclmc } else { crate::swarm::PresetKind::LowRankNuts };
         let o = SwarmOpts { randomise_knobs: false, ..Default::default() };
         let mut preset = crate::swarm::gen_preset(&mut r, kind, nt, 10, &o);
         match &mut preset {
-            crate::chain::Preset::LowRankNuts(s) => { s.adapt_options.mass_matrix_options.eigval_cutoff = 1.00001; s.store_transformed = true; }
-            crate::chain::Preset::LowRankMclmc(s) => { s.adapt_options.mass_matrix_options.eigval_cutoff = 1.00001; s.store_transformed = true; }
+            crate::chain::Preset::LowRankNuts(s) => { if !diag_case { s.adapt_options.mass_matrix_options.eigval_cutoff = 1.00001; } s.store_transformed = true; }
+            crate::chain::Preset::LowRankMclmc(s) => { if !diag_case { s.adapt_options.mass_matrix_options.eigval_cutoff = 1.00001; } s.store_transformed = true; }
             _ => {}
         }
         let init: Vec<f64> = (0..d).map(|i| mu[i] + cov[i * d + i].sqrt() * r.uniform(-1.5, 1.5)).collect();
